@@ -242,6 +242,10 @@ func Edits(d *Dialect) []Edit {
 		{"col_default_changed", []string{"col:b"}, func(s *schema.Schema) { C(T(s, "t"), "b").Default = &schema.Literal{V: "'b'"} }, []string{mt("ModifyColumn(b)[default]")}},
 		{"col_default_removed", []string{"col:b"}, func(s *schema.Schema) { C(T(s, "t"), "b").Default = nil }, []string{mt("ModifyColumn(b)[default]")}},
 		{"col_default_added", []string{"col:d"}, func(s *schema.Schema) { C(T(s, "t"), "d").Default = &schema.Literal{V: "5"} }, []string{mt("ModifyColumn(d)[default]")}},
+		// a non-integer numeric default with more digits than a float prints by default.
+		{"col_default_many_digits", []string{"col:c"}, func(s *schema.Schema) {
+			C(T(s, "t"), "c").Default = &schema.Literal{V: "3.14159265358979"}
+		}, []string{mt("ModifyColumn(c)[default]")}},
 		{"col_null_and_default", []string{"col:d"}, func(s *schema.Schema) {
 			c := C(T(s, "t"), "d")
 			c.Type.Null = false
